@@ -65,6 +65,91 @@ func fullSnapshot(n datamodel.Node) (snap string) {
 	return sb.String()
 }
 
+// streamViewsOracle drives two read views of one stream-backed bytes node (content b) in an interleaved way — partial
+// read on one, then a length probe / positioned read / subset match / AsBytes through the other — and compares
+// everything delivered with b.  Returns "" when all is right.
+func streamViewsOracle(n datamodel.Node, b []byte, r *core.Rand) (msg string) {
+	defer func() {
+		if x := recover(); x != nil {
+			msg = fmt.Sprintf("panic %v", x)
+		}
+	}()
+	lb, ok := n.(datamodel.LargeBytesNode)
+	if !ok {
+		return ""
+	}
+	r1, err1 := lb.AsLargeBytes()
+	r2, err2 := lb.AsLargeBytes()
+	if err1 != nil || err2 != nil {
+		return fmt.Sprintf("AsLargeBytes: %v %v", err1, err2)
+	}
+	k := r.Intn(len(b) + 1)
+	got1 := make([]byte, k)
+	if _, err := io.ReadFull(r1, got1); err != nil {
+		return fmt.Sprintf("first %d bytes: %v", k, err)
+	}
+	what := ""
+	switch r.Intn(5) {
+	case 0:
+		what = "Seek(0,End) on the other view"
+		if size, err := r2.Seek(0, io.SeekEnd); err != nil || size != int64(len(b)) {
+			return fmt.Sprintf("%s = %d, %v", what, size, err)
+		}
+	case 1:
+		off := r.Intn(len(b) + 1)
+		what = fmt.Sprintf("positioned read at %d on the other view", off)
+		if _, err := r2.Seek(int64(off), io.SeekStart); err != nil {
+			return what + ": " + err.Error()
+		}
+		part := make([]byte, r.Intn(len(b)-off+1))
+		if _, err := io.ReadFull(r2, part); err != nil || !bytes.Equal(part, b[off:off+len(part)]) {
+			return fmt.Sprintf("%s: %x %v", what, part, err)
+		}
+	case 2, 3:
+		from, to := k, k+r.Intn(len(b)-k+1)
+		if r.Bool() {
+			from = r.Intn(len(b) + 1)
+			to = from + r.Intn(len(b)-from+1)
+		}
+		what = fmt.Sprintf("subset match [%d,%d)", from, to)
+		mm := func(k string, v core.Val) core.Val { return core.Map(core.KV{K: []byte(k), V: v}) }
+		spec := mm(".", mm("subset", core.Map(core.KV{K: []byte("["), V: core.Int(int64(from))}, core.KV{K: []byte("]"), V: core.Int(int64(to))})))
+		s, st := core.CompileSel(spec)
+		if st != "" {
+			return "subset selector does not compile: " + st
+		}
+		var sub []byte
+		seen := false
+		err := traversal.WalkMatching(n, s, func(p traversal.Progress, m datamodel.Node) error {
+			seen = true
+			var e error
+			sub, e = m.AsBytes()
+			return e
+		})
+		if from == to && !seen && err == nil {
+			// an empty range matches nothing (C07's model: sliceBounds / matchNode)
+		} else if err != nil || !seen || !bytes.Equal(sub, b[from:to]) {
+			return fmt.Sprintf("%s: %x seen=%v %v", what, sub, seen, err)
+		}
+	default:
+		what = "AsBytes"
+		if all, err := n.AsBytes(); err != nil || !bytes.Equal(all, b) {
+			return fmt.Sprintf("AsBytes: %x %v", all, err)
+		}
+	}
+	rest, err := io.ReadAll(r1)
+	if err != nil || !bytes.Equal(append(got1, rest...), b) {
+		return fmt.Sprintf("reader interrupted after %d bytes by %s delivered %x+%x %v", k, what, got1, rest, err)
+	}
+	if _, err := r2.Seek(0, io.SeekStart); err != nil {
+		return "rewind: " + err.Error()
+	}
+	if all2, err := io.ReadAll(r2); err != nil || !bytes.Equal(all2, b) {
+		return fmt.Sprintf("second view from the start after %s: %x %v", what, all2, err)
+	}
+	return ""
+}
+
 type pooled struct {
 	n     datamodel.Node
 	first string
@@ -186,7 +271,17 @@ func runC11(c *core.Ctx) error {
 				what = "decode"
 			case 5: // stream-backed bytes
 				b := r.Bytes(r.Intn(12))
-				add(basicnode.NewBytesFromReader(bytes.NewReader(b)), "NewBytesFromReader")
+				if r.Chance(1, 4) {
+					b = r.Bytes(20 + r.Intn(60))
+				}
+				sn := basicnode.NewBytesFromReader(bytes.NewReader(b))
+				add(sn, "NewBytesFromReader")
+				for k := 0; k < 3; k++ {
+					if msg := streamViewsOracle(sn, b, r); msg != "" {
+						c.Fail("C11/stream-view-wrong", core.Replay{Kind: "oracle", Case: fmt.Sprintf("c11.stream %x seed-fork h%d", b, h), Impl: msg, Expected: fmt.Sprintf("%x", b),
+							Detail: "views of one stream-backed bytes node are not independent cursors over the same content"})
+					}
+				}
 				nb := basicnode.Prototype.Bytes.NewBuilder()
 				if nb.AssignNode(basicnode.NewBytes(b)) == nil {
 					add(nb.Build(), "bytes builder AssignNode")
